@@ -294,7 +294,7 @@ def load_corpus(ctx):
     out = {'tax': [], 'ic': []}
     d = leanside.ROOT / 'corpus' / PID
     if d.is_dir():
-        for f in sorted(d.glob('*.json')):
+        for f in sorted(x for x in d.glob('*.json') if not x.name.startswith(('seeded-', 'regress-'))):
             j = json.loads(f.read_text())
             out[j.get('kind', 'ic')].append(j['scenario'])
     return out
